@@ -12,7 +12,7 @@ LEAN_FILE = 'PncProofs/C07.lean'
 NAMESPACE = 'Props.C07'
 LEAN_CONE = ['PncModel.NcStore', 'PncProofs.C07']
 LEMMA_FILES = []
-REQUIRED_THEOREMS = ['cell_roundtrip', 'var_roundtrip', 'file_roundtrip', 'mask_lost_counterexample']
+REQUIRED_THEOREMS = ['cell_roundtrip', 'var_roundtrip', 'file_roundtrip', 'second_cycle', 'mask_lost_counterexample']
 RULE = ('[second cycle] every reopened file (a netcdf-class object whose variables live on disk) is saved and reopened once more and must come back unchanged; ' +
         'random files (1-3 dimensions, optional unlimited first dimension - several unlimited dimensions in NETCDF4 -, 1-5 variables of every dtype the flavour '
         'can store incl. char, rank 0-3, masked variables whose fill is given as fill_value / missing_value / '
